@@ -1,5 +1,82 @@
 import Ecal.Drivers.Util
+import Ecal.Model.Pack
+import Ecal.Gen.C20
+/-!
+Driver of C20. Payload (space separated):
+  `<packed 0|1> <n> <filler 0|1|2> <seed> <plants|-> <ws-hex|-> <tree> <rc> <zip4-hex>`
+The synthetic binary is regenerated here from (n, filler, seed, plants) with the
+same deterministic functions as in go/cmd/harness/c20.go; the file is
+`layout marker bin (ws ++ zip4)` (only the first bytes of the archive matter for
+the scan), or `bin` alone when not packed. The model (`Impl.scan` with the
+generated geometry, full reads) predicts the offset handed to the zip reader.
+
+Result: `off=<pos|none> <exit=<rc> files=ok | fall | misfound>`; `HANG` if the model loop
+makes no progress. `spec=`/`kf=` are attached when the model's result is not what
+the property demands for this case (first occurrence of the marker is the one
+Pack wrote ⇒ archive found at `|bin|+|marker|` and run).
+-/
 namespace Ecal.Drv.C20
-/-- model driver of property C20 (stub: not implemented yet) -/
-def run (_args : List String) : IO Unit := Ecal.Drv.lineLoop fun _ => "unimplemented"
+open Ecal.Drv Ecal.Pack
+
+def geom : Geom := { bufSize := Ecal.Gen.C20.bufSize, keep := Ecal.Gen.C20.keep, marker := Ecal.Gen.C20.marker }
+
+/-- filler byte kinds 0 and 1 (see c20Fill) -/
+def fillByte (kind i : Nat) : Nat :=
+  if kind = 1 ∧ i % 61 = 60 then 35
+  else if kind = 1 ∧ i % 127 = 126 then 10
+  else 97 + i % 23
+
+def lcgLoop : Nat → Nat → List Nat → List Nat
+  | 0, _, acc => acc.reverse
+  | n+1, x, acc =>
+    let x := (x * 1103515245 + 12345) % 2147483648
+    lcgLoop n x (((x / 65536) % 256) :: acc)
+
+def fill (n kind seed : Nat) : List Nat :=
+  if kind = 2 then lcgLoop n (seed % 2147483648) []
+  else (List.range n).map (fillByte kind)
+
+def plant (bin : List Nat) (off : Nat) (bs : List Nat) : List Nat :=
+  bin.take off ++ bs ++ bin.drop (off + bs.length)
+
+def parsePlants (s : String) : Option (List (Nat × List Nat)) :=
+  if s = "-" then some []
+  else (s.splitOn ",").mapM fun p =>
+    match p.splitOn ":" with
+    | [o, h] => do
+      let o ← o.toNat?
+      let h ← hexDecode h
+      some (o, h)
+    | _ => none
+
+def showRes (trueStart : Nat) (rc : String) : Res → String
+  | .found p => if p = trueStart then s!"off={p} exit={rc} files=ok" else s!"off={p} misfound"
+  | .notFound => "off=none fall"
+  | .hang => "HANG"
+
+def runCase (payload : String) : String :=
+  match payload.splitOn " " with
+  | [packed, n, kind, seed, plants, ws, _tree, rc, zip4] =>
+    match n.toNat?, kind.toNat?, seed.toNat?, parsePlants plants, hexDecode ws, hexDecode zip4 with
+    | some n, some kind, some seed, some plants, some ws, some zip4 =>
+      let M := geom.marker
+      let bin := plants.foldl (fun b (o, bs) => plant b o bs) (fill n kind seed)
+      let isPacked := packed = "1"
+      let data := if isPacked then layout M bin (ws ++ zip4) else bin
+      let trueStart := if isPacked then n + M.length + ws.length else data.length + 1
+      let model := showRes trueStart rc (Impl.scan geom Impl.fullReads data)
+      -- what the property demands
+      let first := Spec.find M data
+      let demanded : Option String :=
+        if isPacked then
+          if first = some (n + M.length) ∧ ws.all isSkip then some s!"off={trueStart} exit={rc} files=ok" else none
+        else if first = none then some "off=none fall" else none
+      let nt := if n + M.length > geom.bufSize ∨ !plants.isEmpty ∨ !ws.isEmpty then "\tnt=1" else ""
+      match demanded with
+      | some d => if d = model then model ++ nt else model ++ nt ++ "\tkf=C20-scan-deviates\tspec=" ++ d
+      | none => model ++ nt
+    | _, _, _, _, _, _ => "bad-payload"
+  | _ => "bad-payload"
+
+def run (_args : List String) : IO Unit := lineLoop runCase
 end Ecal.Drv.C20
